@@ -54,8 +54,8 @@ CHECKS = {
          "Run-length slicing decodes to Python's dense[a:b:c] for all bounds and steps; integer / list / mask / run-length-mask / window indexing equal the dense indexing.", "4.15, 10.3", ""),
  "C16": ("Coq proof apply_binary_correct (arbitrary unrelated boundaries), rl_map/sum/any/all/max/mean/hist/concat_correct + dtype-wide correspondence",
          "Merged-boundary binary ufunc decodes to map2 of the dense arrays and has no equal neighbours; reductions on run values equal reductions of the decoded array.", "4.16, 10.3", ""),
- "C17": ("Coq proofs from_ragged_decode, from_matrix_decode, rl2_select/map/concat/sum/max_argmax/col/ravel/elem, rl2_col_sum(_matrix)_correct, rl2_col_counts_correct, from_intervals_decode, rl2_col_range_pos (every positive-step column slice that is non-empty in every row: Python's slice of every dense row), rl2_col_range_neg (negative steps with every given bound inside the rows, open bounds included) + step-subset kernel tie + correspondence (model and dense numpy), the only decision for any(axis=0)",
-         "Row-wise lock-step representation; column sums (sorted change events + running sums) and column counts decode to the dense column sums / counts for every column. from_intervals decodes to the indicator matrix. Column ranges are proved as the property states them (any positive-step slice; negative steps with bounds inside the rows); any(axis=0) on the matrix variant is modelled (Model/RL2Any.v); its interval-union sweep is proved (sweep_intervals), the extraction of the intervals from the rows is decided by exact correspondence with the model and with numpy on the dense data; float column sums are compared bit for bit with numpy's.", "4.17, 10.3", ""),
+ "C17": ("Coq proofs from_ragged_decode, from_matrix_decode, rl2_select/map/concat/sum/max_argmax/col/ravel/elem, rl2_col_sum(_matrix)_correct, rl2_col_counts_correct, from_intervals_decode, rl2_col_range_pos (every positive-step column slice that is non-empty in every row: Python's slice of every dense row), rl2_col_range_neg (negative steps with every given bound inside the rows, open bounds included), col_any_matrix (any(axis=0) of the matrix variant) + step-subset kernel tie + correspondence (model and dense numpy), and the dense data",
+         "Row-wise lock-step representation; column sums (sorted change events + running sums) and column counts decode to the dense column sums / counts for every column. from_intervals decodes to the indicator matrix. Column ranges are proved as the property states them (any positive-step slice; negative steps with bounds inside the rows); any(axis=0) on the matrix variant is modelled as written (Model/RL2Any.v) and proved (col_any_matrix: the column-wise OR of the rows, through the interval-union sweep theorem sweep_intervals); float column sums are compared bit for bit with numpy's.", "4.17, 10.3", ""),
  "C18": ("Coq proof obj_select_entries / obj_item_entry / obj_concat_entries / obj_eqb_iff / obj_astype_* / obj_iter_entries / varlen_rows + correspondence on run-time generated dataclasses",
          "Applying one selector to every field equals selecting entries of the table; concatenation concatenates the tables; astype keeps every value under its own field name; iteration yields the entries in order; VarLenArray concatenation right-aligns.", "4.18, 10.3", ""),
  "C19": ("Coq proof index_rows_width_independent, shape_codes_width_independent, geometry_additions_width_independent + all C01-C09 case sets run under both index widths (separate processes and in-process switch)",
